@@ -138,4 +138,88 @@ def constants():
     out += f"def P2TR_PUSH : UInt8 := {int(m_p.group(1))}\n"
     out += f"def NUMS_PREFIX : UInt8 := {int(mp.group(1), 16)}\n"
     out += f"def NUMS_X : Btc.Bytes := {_blit(bytes.fromhex(mm.group(1)))}\n"
+    out += _codec_constants()
     return out
+
+
+def _body(fn):
+    """the unparsed source of a function without its docstring"""
+    t = ast.parse(inspect.getsource(fn))
+    f = t.body[0]
+    if isinstance(f.body[0], ast.Expr) and isinstance(f.body[0].value, ast.Constant):
+        f.body = f.body[1:]
+    return ast.unparse(t)
+
+
+def _codec_constants():
+    """`taproot.serialize` and what it calls (`_serialize_int_command`, op_codes_tapscript's `_serialize_str_command`,
+    `_serialize_bytes_command`, `_pushdata`): the shapes Model/C12/Script.lean mirrors are pinned line by line, the
+    thresholds / op-code table / OP_SUCCESS list / script-number range are read off the source."""
+    from btclib import utils
+    from btclib.script import op_codes_tapscript as oc
+    from btclib.script import script as sc
+    if taproot._serialize_str_command is not oc._serialize_str_command \
+            or taproot._serialize_int_command is not sc._serialize_int_command \
+            or taproot._serialize_bytes_command is not sc._serialize_bytes_command \
+            or taproot.OP_SUCCESS is not oc.OP_SUCCESS or sc.encode_num is not utils.encode_num:
+        raise ValueError("taproot.serialize: the helpers it calls are no longer the ones modelled")
+    ser = _body(taproot.serialize)
+    for line in ("assert_type(script, list, 'tapscript')", "script = script[::-1]", "while script:", "command = script.pop()",
+                 "if isinstance(command, int):\n            r.append(_serialize_int_command(command))",
+                 "elif isinstance(command, str):\n            r.append(_serialize_str_command(command))\n"
+                 "            if 'OP_SUCCESS' in command:\n"
+                 "                if len(script) != 1 or not isinstance(script[0], (bytes, bytearray, memoryview)):\n"
+                 "                    raise BTClibValueError(",
+                 "return b''.join(r) + script[0]\n        else:\n            r.append(_serialize_bytes_command(command))\n"
+                 "    return b''.join(r)"):
+        if line not in ser:
+            raise ValueError(f"taproot.serialize of unexpected shape: {line!r} not found")
+    ic = _body(sc._serialize_int_command)
+    if not ic.rstrip().endswith("return _serialize_bytes_command(encode_num(command))") or ic.count("return") != 1:
+        raise ValueError("script._serialize_int_command of unexpected shape")
+    st = _body(oc._serialize_str_command)
+    m10 = re.search(r"if command\.startswith\('OP_SUCCESS'\):\n        try:\n            x = int\(command\[(\d+):\]\)", st)
+    for line in ("command = command.strip().upper()\n    if command in OP_CODES:\n        return OP_CODES[command]\n",
+                 "except ValueError as e:\n            raise BTClibValueError(",
+                 "if x not in OP_SUCCESS:\n            raise BTClibValueError(",
+                 "return x.to_bytes(1, 'little')\n    try:\n        data = bytes.fromhex(command)\n    except ValueError as e:\n"
+                 "        raise BTClibValueError(", "return _serialize_bytes_command(data)"):
+        if line not in st:
+            raise ValueError(f"op_codes_tapscript._serialize_str_command of unexpected shape: {line!r} not found")
+    if not m10 or int(m10.group(1)) != len("OP_SUCCESS"):
+        raise ValueError("op_codes_tapscript._serialize_str_command: OP_SUCCESS suffix slice of unexpected shape")
+    by = _body(sc._serialize_bytes_command)
+    mb = re.search(r"assert_type\(command, \(bytes, bytearray, memoryview\), 'script command'\)\n(?:.*\n)*?"
+                   r"    length = len\(command\)\n    if length < (\d+):\n"
+                   r"        out\.append\(length\.to_bytes\(1, byteorder='little', signed=False\)\)\n"
+                   r"    elif length < (\d+):\n        _pushdata\(1, length, out\)\n"
+                   r"    elif length < (\d+):\n        _pushdata\(2, length, out\)\n"
+                   r"    elif length < (\d+):\n        _pushdata\(4, length, out\)\n"
+                   r"    else:\n        raise BTClibValueError\(.*\)\n    out\.append\(command\)\n    return b''\.join\(out\)", by)
+    if not mb:
+        raise ValueError("script._serialize_bytes_command of unexpected shape")
+    pd = _body(sc._pushdata)
+    if "out.extend((BYTE_FROM_OP_CODE_NAME[f'OP_PUSHDATA{i}'], length.to_bytes(i, byteorder='little', signed=False)))" not in pd:
+        raise ValueError("script._pushdata of unexpected shape")
+    names = dict(oc.OP_CODES)
+    if any("OP_SUCCESS" in k or k != k.strip().upper() or len(v) != 1 or not k.isascii() for k, v in names.items()):
+        raise ValueError("op_codes_tapscript.OP_CODES: a name with OP_SUCCESS in it / not normalised / not one byte")
+    out = "/-- `_serialize_bytes_command`: a push shorter than PUSH_DIRECT is its length byte; below PUSH_1 / PUSH_2 / PUSH_4 it is\n"
+    out += "    OP_PUSHDATA1 / 2 / 4 and a 1 / 2 / 4-byte little-endian length; anything longer is refused -/\n"
+    out += f"def PUSH_DIRECT : Nat := {int(mb.group(1))}\ndef PUSH_1 : Nat := {int(mb.group(2))}\n"
+    out += f"def PUSH_2 : Nat := {int(mb.group(3))}\ndef PUSH_4 : Nat := {int(mb.group(4))}\n"
+    for i in (1, 2, 4):
+        out += f"def OP_PUSHDATA{i} : UInt8 := {sc.BYTE_FROM_OP_CODE_NAME[f'OP_PUSHDATA{i}'][0]}\n"
+    out += "/-- `op_codes_tapscript.OP_CODES`: (name as ASCII octets, byte) — what `_serialize_str_command` looks a stripped, upper-cased str up in -/\n"
+    out += "def TAP_OP_CODES : List (Btc.Bytes × UInt8) := [\n"
+    out += ",\n".join(f"  ({_blit(k.encode())}, {v[0]}) /- {k} -/" for k, v in names.items()) + "]\n"
+    out += "/-- `op_codes_tapscript.OP_SUCCESS` -/\n"
+    out += "def OP_SUCCESS : List Int := [" + ", ".join(str(x) for x in oc.OP_SUCCESS) + "]\n"
+    out += f"def OP_SUCCESS_PREFIX : Btc.Bytes := {_blit(b'OP_SUCCESS')}\n"
+    return out
+
+
+def functions():
+    from pyfun2lean import FuncSpec
+    from btclib import utils
+    return [FuncSpec(utils, "encode_num", "bytes", skip_stmts=("err_msg",))]
